@@ -201,7 +201,8 @@ fn spec_hybrid_uint_encode(c: &IntegerConfig, v: u32) -> (u32, u32, u32) {
     (token, nbits, bits)
 }
 
-/// DECODER side of C.3.3 in unbounded arithmetic (u128): Some((number of raw bits n, value as a function of those bits)).
+/// DECODER side of C.3.3: the number n of raw bits a token announces, and (in u128, so nothing is silently
+/// truncated) the value as a function of the token and those n bits.
 fn spec_hybrid_uint_nbits(c: &IntegerConfig, token: u32) -> u32 {
     if token < c.split { 0 } else {
         c.split_exponent - (c.msb_in_token + c.lsb_in_token) + ((token - c.split) >> (c.msb_in_token + c.lsb_in_token))
